@@ -91,6 +91,9 @@ def precondition(model):
 
 
 def run(ctx, model):
+    from . import signatures as _sig
+    _n_sig = _sig.check(ctx, model, "R-SIGNATURE", lambda k: 'capture' in k.split('.')[-1] and k.startswith('pregex.core.pre:') and k.split('.')[-1] != 'capture')
+    ctx.floor("R-SIGNATURE", _n_sig, 1, "public entry points")
     ctx.explanation = __doc__.strip().replace("\n", " ")
     ctx.assumptions += [
         "re's own semantics of groups()/groupdict()/span(); get_* forms equal iterate_* forms by C11 R-WRAP",
